@@ -63,6 +63,11 @@ M = [
     ("C08", "msm-cache-W", "black_it/loss_functions/msm.py", "                / np.mean((real_mom_1d[None, :] - ensemble_sim_mom_1d) ** 2, axis=0),\n            )", "                / np.mean((real_mom_1d[None, :] - ensemble_sim_mom_1d) ** 2, axis=0),\n            )\n            self._covariance_mat = W"),
     ("C08", "len-ge", "black_it/loss_functions/base.py", "                nb_coordinate_weights == num_coords,", "                nb_coordinate_weights >= num_coords,"),
     ("C08", "lik-last-member", "black_it/loss_functions/likelihood.py", "log_lik_real_series = np.sum(log_lik_real_series_r, axis=0) / r", "log_lik_real_series = (np.sum(log_lik_real_series_r, axis=0) + log_lik_real_series_r[-1] - log_lik_real_series_r[0]) / r"),
+    ("C07", "default-p-1", "black_it/loss_functions/minkowski.py", "        p: int = 2,", "        p: int = 1,"),
+    ("C07", "default-f-05", "black_it/loss_functions/fourier.py", "        f: float = 0.8,", "        f: float = 0.5,"),
+    ("C07", "default-h-scott", "black_it/loss_functions/likelihood.py", '        h: str | float = "silverman",', '        h: str | float = "scott",'),
+    ("C07", "default-standardise-on", "black_it/loss_functions/msm.py", "        standardise_moments: bool = False,", "        standardise_moments: bool = True,"),
+    ("C07", "gsl-defaults-cached", "black_it/loss_functions/gsl_div.py", "        nb_values = (\n            int((ts_length - 1) / 2.0) if self.nb_values is None else self.nb_values\n        )", "        if self.nb_values is None:\n            self.nb_values = int((ts_length - 1) / 2.0)\n        nb_values = self.nb_values"),
     ("C07", "mink-drop-filters", "black_it/loss_functions/minkowski.py", "super().__init__(coordinate_weights, coordinate_filters)", "super().__init__(coordinate_weights)"),
     ("C07", "msm-std-nodivide-real", "black_it/loss_functions/msm.py", "            real_mom_1d = real_mom_1d / abs(real_mom_1d)\n", "            real_mom_1d = real_mom_1d / real_mom_1d\n"),
     ("C07", "msm-invvar-no-mean", "black_it/loss_functions/msm.py", "/ np.mean((real_mom_1d[None, :] - ensemble_sim_mom_1d) ** 2, axis=0),", "/ np.sum((real_mom_1d[None, :] - ensemble_sim_mom_1d) ** 2, axis=0),"),
@@ -81,6 +86,9 @@ M = [
     ("C20", "loghp-trend-of-raw", "black_it/utils/time_series.py", "return np.log(time_series) - hp_filter(np.log(time_series), lamb=1600)[1]", "return np.log(time_series) - hp_filter(np.log(time_series), lamb=1600)[0]"),
     ("C20", "difflog-prepend0", "black_it/utils/time_series.py", "diff_log = np.diff(log, prepend=log[0])", "diff_log = np.diff(log, prepend=0)"),
     ("C20", "difflog-mean-of-log", "black_it/utils/time_series.py", "return diff_log - np.mean(diff_log)", "return diff_log - np.mean(diff_log[1:])"),
+    ("C20", "moments-nan-to-num-copy", "black_it/utils/time_series.py", "    np.nan_to_num(avg_vec_mom, copy=False)", "    np.nan_to_num(avg_vec_mom)"),
+    ("C20", "moments-clean-before-last-slot", "black_it/utils/time_series.py", "    avg_vec_mom[17] = ts_diff_acf[5]\n\n    np.nan_to_num(avg_vec_mom, copy=False)", "    np.nan_to_num(avg_vec_mom, copy=False)\n    avg_vec_mom[17] = ts_diff_acf[5]"),
+    ("C20", "moments-clean-finite-only-guard", "black_it/utils/time_series.py", "    np.nan_to_num(avg_vec_mom, copy=False)", "    np.nan_to_num(avg_vec_mom, copy=False, posinf=np.inf)"),
     ("C16", "clip-in-place", "black_it/samplers/xgboost.py", "        y = np.copy(y)\n", ""),
     ("C16", "sur-highest", "black_it/samplers/surrogate.py", "sampled_points: NDArray[np.float64] = candidates[sorting_indices][:batch_size]", "sampled_points: NDArray[np.float64] = candidates[sorting_indices][-batch_size:]"),
     ("C16", "sur-fit-subset", "black_it/samplers/surrogate.py", "        self.fit(existing_points, existing_losses)", "        self.fit(existing_points[-50:], existing_losses[-50:])"),
